@@ -298,3 +298,7 @@ Qed.
 
 Lemma init_ok : forall e, st_ok (init e).
 Proof. intros. exact I. Qed.
+
+Lemma replies_wellformed : forall r, reply_ok r ->
+  decode_reply (encode r) = Some r /\ ends_with_rfq (encode r) = true.
+Proof. intros r H. split; [exact (reply_roundtrip r H) | exact (reply_ends_rfq r H)]. Qed.
